@@ -33,7 +33,11 @@ type DeepCase struct {
 	MaxStackMB int `json:"max_stack_mb,omitempty"`
 }
 
-var deepList = []struct{ typ, shape string }{
+type deepEntry struct{ typ, shape string }
+
+// deepList is completed at start-up with one "many-elements" entry per
+// container field (slice or map) of a few wide types and per wire form.
+var deepList = append([]deepEntry{
 	{"Wide", "unknown-fields"},
 	{"Wide", "repeated-field"},
 	{"Nest", "unknown-fields"},
@@ -44,6 +48,30 @@ var deepList = []struct{ typ, shape string }{
 	{"Tree", "nested-self"},
 	{"JArr", "nested-json-arrays"},
 	{"JDoc", "nested-json-arrays"},
+}, containerShapes("Wide", "Nest", "Tree", "JDoc")...)
+
+func containerShapes(types ...string) (out []deepEntry) {
+	for _, tn := range types {
+		ti := world.Types[tn]
+		if ti == nil || ti.T.Kind() != reflect.Struct {
+			continue
+		}
+		used := structTags(ti.T)
+		for idx := 1; idx < 128; idx++ {
+			sf, ok := used[idx]
+			if !ok {
+				continue
+			}
+			ft := sf.Type
+			for ft.Kind() == reflect.Ptr {
+				ft = ft.Elem()
+			}
+			if ft.Kind() == reflect.Map || (ft.Kind() == reflect.Slice && ft.Elem().Kind() != reflect.Uint8) {
+				out = append(out, deepEntry{tn, fmt.Sprintf("many-elements@%d/counted", idx)}, deepEntry{tn, fmt.Sprintf("many-elements@%d/repeated", idx)})
+			}
+		}
+	}
+	return out
 }
 
 func structTags(t reflect.Type) (used map[int]reflect.StructField) {
@@ -78,6 +106,59 @@ func deepInput(t reflect.Type, shape string, size int) (in []byte, levels int, w
 		return nil, 0, "", false
 	}
 	used := structTags(t)
+	if strings.HasPrefix(shape, "many-elements@") {
+		var idx int
+		var form string
+		if _, err := fmt.Sscanf(strings.Replace(strings.TrimPrefix(shape, "many-elements@"), "/", " ", 1), "%d %s", &idx, &form); err != nil {
+			return nil, 0, "", false
+		}
+		sf, ok := used[idx]
+		if !ok {
+			return nil, 0, "", false
+		}
+		ft := sf.Type
+		for ft.Kind() == reflect.Ptr {
+			ft = ft.Elem()
+		}
+		packed := false
+		if ft.Kind() == reflect.Slice {
+			switch ft.Elem().Kind() {
+			case reflect.Bool, reflect.Int, reflect.Int8, reflect.Int16, reflect.Int32, reflect.Int64, reflect.Uint, reflect.Uint16, reflect.Uint32, reflect.Uint64, reflect.Float32, reflect.Float64:
+				packed = true
+			}
+		}
+		n := size
+		switch {
+		case form == "counted" && packed:
+			// one length-delimited field holding n one-byte varints (or n/8 zero floats)
+			in = appendUvarint(in, uint64(idx)<<3|world.WTLength)
+			in = appendUvarint(in, uint64(n))
+			in = append(in, bytes.Repeat([]byte{0x01}, n)...)
+			if k := ft.Elem().Kind(); k == reflect.Float32 || k == reflect.Float64 {
+				copy(in[len(in)-n:], make([]byte, n))
+			}
+			what = fmt.Sprintf("a flat record: field %d (%s, %s) as one packed run of %d bytes", idx, sf.Name, ft, n)
+		case form == "counted":
+			// count n, then n empty elements / entries (a length of zero each)
+			in = appendUvarint(in, uint64(idx)<<3|world.WTSlice)
+			in = appendUvarint(in, uint64(n))
+			in = append(in, make([]byte, n)...)
+			what = fmt.Sprintf("a flat record: field %d (%s, %s) with a count of %d and as many empty elements", idx, sf.Name, ft, n)
+		case packed:
+			var f []byte
+			f = appendUvarint(f, uint64(idx)<<3|world.WTVarInt)
+			f = append(f, 0x01)
+			in = bytes.Repeat(f, n/len(f))
+			what = fmt.Sprintf("a flat record: field %d (%s, %s) as %d repeated scalar fields", idx, sf.Name, ft, n/len(f))
+		default:
+			var f []byte
+			f = appendUvarint(f, uint64(idx)<<3|world.WTLength)
+			f = append(f, 0x00)
+			in = bytes.Repeat(f, n/len(f))
+			what = fmt.Sprintf("a flat record: field %d (%s, %s) as %d repeated empty length-delimited fields", idx, sf.Name, ft, n/len(f))
+		}
+		return in, 1, what, true
+	}
 	switch shape {
 	case "unknown-fields":
 		idx := 1
